@@ -2,7 +2,7 @@ from .gcp import Model as GCPModel
 from .ro import Model as ROModel
 from .lp import DecBounds, DecExpConstr, LinConstr
 from .lp import ConeConstr, PCvxConstr, CvxConstr, ExpConstr, LMIConstr
-from .lp import Vars, Affine
+from .lp import Vars, Affine, Convex
 from .lp import RoAffine, RoConstr
 from .lp import DecVar, RandVar, DecLinConstr, DecCvxConstr, DecPCvxConstr
 from .lp import DecRoConstr
@@ -250,6 +250,9 @@ class Model:
             if obj.size > 1:
                 raise ValueError('Incorrect function dimension.')
 
+        if isinstance(obj, (Convex, PiecewiseConvex)) and obj.sign == -1:
+            raise ValueError('Nonconvex objective function.')
+
         self.obj = obj
         self.sign = 1
         self.pupdate = True
@@ -276,6 +279,9 @@ class Model:
         if not isinstance(obj, (Real, PiecewiseConvex)):
             if obj.size > 1:
                 raise ValueError('Incorrect function dimension.')
+
+        if isinstance(obj, (Convex, PiecewiseConvex)) and obj.sign == 1:
+            raise ValueError('Nonconvex objective function.')
 
         self.obj = obj
         self.sign = - 1
@@ -306,6 +312,9 @@ class Model:
         if not isinstance(obj, (Real, PiecewiseConvex)):
             if obj.size > 1:
                 raise ValueError('Incorrect function dimension.')
+
+        if isinstance(obj, (Convex, PiecewiseConvex)) and obj.sign == -1:
+            raise ValueError('Nonconvex objective function.')
 
         self.obj = obj
         self.obj_ambiguity = ambset
@@ -338,6 +347,9 @@ class Model:
         if not isinstance(obj, (Real, PiecewiseConvex)):
             if obj.size > 1:
                 raise ValueError('Incorrect function dimension.')
+
+        if isinstance(obj, (Convex, PiecewiseConvex)) and obj.sign == 1:
+            raise ValueError('Nonconvex objective function.')
 
         self.obj = obj
         self.obj_ambiguity = ambset
